@@ -13,10 +13,10 @@ import (
 	"lvharness/hx"
 )
 
-// vcaDuplicateSlots gates the cases in which ONE validator's precommit sits in several slots of a commit handed to
-// VerifyCommitAny.  The unchanged tree counts such a validator once per slot (proposed finding
-// verifycommitany-double-count, /verif/proposed/C03-verifycommitany-double-count.md); the cases stay off until that is decided.
-const vcaDuplicateSlots = false
+// vcaDuplicateSlots: the cases in which ONE validator's precommit sits in several slots of a commit handed to
+// VerifyCommitAny.  Before fix ddc1c92 such a validator was counted once per slot (finding verifycommitany-double-count,
+// repaired); the cases are on so that a revert of the fix fails the monitor verify_commit_any_sound with a failing input.
+const vcaDuplicateSlots = true
 
 type mstEntry struct {
 	addr []byte
